@@ -591,7 +591,8 @@ def rule_r14_for_filter_map(body, log, where):
 
 def rule_r15_or_else_map_collect(body, log, where):
     """R8f: `A.or_else(|| B)`  ->  `match A { Some(__v) => Some(__v), None => B }`                      (std: Option::or_else)
-       R15: `X.iter().map(|(a, b)| F).collect()`  ->  X iterated once with `for (a, b) in X.iter()`, every F inserted, in iteration
+       R8g: `A.or(B)`  ->  `{ let a = A; let b = B; match a { Some(v) => Some(v), None => b } }`          (std: Option::or, eager)
+       R15: `X.iter().map(|pat| F).collect()`  ->  X iterated once with `for pat in X.iter()`, every F inserted, in iteration
             order, into a fresh collection `collect_new()` through `collect_insert` (std: FromIterator for an insertion-ordered map is
             insert-in-order; the result type is fixed by the enclosing function's return type).
        Opt-in (`rules=R15`)."""
@@ -600,7 +601,7 @@ def rule_r15_or_else_map_collect(body, log, where):
         kind = rs.code_mask(body)
         hit = None
         for s_, e_, m in rs.find_code(body, kind, r'\.\s*or_else\s*\(\s*\|\s*\|', 0, len(body)):
-            hit = (s_, e_); break
+            hit = (s_, e_)      # the LAST one: in a chain `A.or_else(..).or_else(..)` its receiver is the call chain before it
         if hit is None:
             break
         s_, e_ = hit
@@ -611,11 +612,29 @@ def rule_r15_or_else_map_collect(body, log, where):
         recv = body[rstart:s_].strip()
         n8f += 1
         body = body[:rstart] + 'match %s { Some(__v8f) => Some(__v8f), None => %s }' % (recv, b) + body[pclose + 1:]
+    n8g = 0
+    while True:
+        kind = rs.code_mask(body)
+        hit = None
+        for s_, e_, m in rs.find_code(body, kind, r'\.\s*or\s*\(', 0, len(body)):
+            hit = (s_, e_)      # the last one
+        if hit is None:
+            break
+        s_, e_ = hit
+        popen = e_ - 1
+        pclose = rs.match_close(body, kind, popen)
+        b = body[popen + 1:pclose].strip()
+        rstart = _receiver_start(body, kind, s_)
+        recv = body[rstart:s_].strip()
+        n8g += 1
+        # R8g: `A.or(B)` evaluates A, then B, then picks: both are evaluated, in that order (std: Option::or is eager)
+        body = body[:rstart] + '{ let __a8g_%d = %s; let __b8g_%d = %s; match __a8g_%d { Some(__v8g) => Some(__v8g), None => __b8g_%d } }' % (n8g, recv, n8g, b, n8g, n8g) + body[pclose + 1:]
+    log.hit('R8g.option_or', n8g, where)
     n15 = 0
     while True:
         kind = rs.code_mask(body)
         hit = None
-        for s_, e_, m in rs.find_code(body, kind, r'\.\s*iter\s*\(\s*\)\s*\.\s*map\s*\(\s*\|\s*\(\s*(\w+)\s*,\s*(\w+)\s*\)\s*\|', 0, len(body)):
+        for s_, e_, m in rs.find_code(body, kind, r'\.\s*iter\s*\(\s*\)\s*\.\s*map\s*\(\s*\|\s*([^|]+?)\s*\|', 0, len(body)):
             popen = body.index('(', body.index('map', s_))
             pclose = rs.match_close(body, kind, popen)
             mc = re.match(r'\s*\.\s*collect\s*\(\s*\)', body[pclose + 1:])
@@ -629,8 +648,8 @@ def rule_r15_or_else_map_collect(body, log, where):
         x = body[x_start:s_].strip()
         n15 += 1
         acc = '__acc15_%d' % n15
-        new = ('{ let mut %s = collect_new(); for (%s, %s) in %s.iter() { let __item15 = %s; collect_insert(&mut %s, __item15); } %s }'
-               % (acc, m.group(1), m.group(2), x, f, acc, acc))
+        new = ('{ let mut %s = collect_new(); for %s in %s.iter() { let __item15 = %s; collect_insert(&mut %s, __item15); } %s }'
+               % (acc, m.group(1), x, f, acc, acc))
         body = body[:x_start] + new + body[end:]
     log.hit('R8f.option_or_else', n8f, where)
     log.hit('R15.iter_map_collect', n15, where)
@@ -1019,12 +1038,13 @@ def _apply_fn_full(d, log, fnmap, out_lineno, stub_only=False):
         body = rule_r1_break(body, log, where)
     body = rule_r2_underscore_closure(body, log, where)
     body = rule_r3_macros(body, log, where, name)
+    # R8f/R8g/R15 first: their receivers must still be plain method chains
+    if 'R15' in d.opts.get('rules', ''):
+        body = rule_r15_or_else_map_collect(body, log, where)
     if 'R8' in d.opts.get('rules', ''):
         body = rule_r8_result_combinators(body, log, where)
     if 'R9' in d.opts.get('rules', ''):
         body = rule_r9_iter_first(body, log, where)
-    if 'R15' in d.opts.get('rules', ''):
-        body = rule_r15_or_else_map_collect(body, log, where)
     if 'R13' in d.opts.get('rules', ''):
         body = rule_r13_continue(body, log, where)
     if 'R14' in d.opts.get('rules', ''):
@@ -1244,6 +1264,11 @@ def _mirror_type(ty, known):
         return 'IndexMap<%s, %s>' % (k_, v_), d1 + d2
     if ty in known:
         return known[ty], []
+    m3 = re.fullmatch(r'(\w+)\s*<\s*([^,<>]+?)\s*>', ty)
+    if m3 and m3.group(1) in known and m3.group(1) not in ('IndexMap',):
+        # a known one-parameter generic (e.g. ReferenceOr<T>) keeps its shape, the argument is mirrored
+        a_, d1 = _mirror_type(m3.group(2), known)
+        return '%s<%s>' % (known[m3.group(1)], a_), d1
     if ty in ('String', 'bool', 'u8', 'u16', 'u32', 'u64', 'usize', 'i32', 'i64'):
         return ty, []
     name = _opaque_name(ty)
